@@ -706,7 +706,10 @@ def run(ctx):
         R.extra['pairs_judged_by_verified_checker'] = len(pairs)
     # the NWChem token-level models against the real writer and reader
     for label, what, rq, exp in [x for x in nw if x[2] is None]:
-        raise DriverError('nwchem harness: %s' % exp)
+        # the text the real writer produced does not have the structure the token-level model prescribes (one block per element, …):
+        # the writer model and the writer no longer agree on this input
+        R.disagree('writer_structure', dict(basis=label), 'one block per element', str(exp)[:200], note='the written text cannot be cut into the blocks the writer model produces (%s)' % what)
+    nw = [x for x in nw if x[2] is not None]
     if ctx.model_ok and nw:
         ans = drive([rq for (_, _, rq, _) in nw])
         nread = nok = 0
